@@ -329,9 +329,21 @@ def reconnect_wakeup(ctx):
                       f'the callback {why}; callCallbacks removes a callback whose result is false - it runs after the first '
                       'reconnect only, from the second reconnect on it is gone', target)
     cc = m.method(IOBASE, 'callCallbacks', inherited=False)
-    ok = any(isinstance(x, ast.Assign) and 'not cb()' in src(x.value) or 'not cb()' in src(x) for x in body_walk(cc.node) if isinstance(x, ast.Assign))
+    # the result of the callback decides about the removal: the call is used as a value (assigned / tested), and entries are popped
+    cbcalls = [c for c in calls_in(cc.node) if isinstance(c.func, ast.Name) and not c.args and
+               any(isinstance(a, ast.For) and c.func.id in {x.id for x in ast.walk(a.target) if isinstance(x, ast.Name)} for a in ancestors(c))]
+    used = [c for c in cbcalls if not isinstance(getattr(c, 'parent', None), ast.Expr)]
+    ok = bool(used) and any(call_attr(c) == 'pop' and '_reconnectCallbacks' in src(c.func) for c in calls_in(cc.node))
     ctx.check(ok, f'{cc.qualname}:drops callbacks returning false', cc.node, 'removeme = not cb()',
               'callCallbacks no longer has the documented removal semantics (rule R6 is about it)', cc)
+    # every callback runs after a reconnect: a failing one is contained per callback (the try lies inside the loop)
+    for c in cbcalls:
+        loop = next((a for a in ancestors(c) if isinstance(a, ast.For)), None)
+        per_cb = any(part == 'body' and any(handler_catches_all(h) and not handler_reraises(h) for h in t.handlers) and any(a is loop for a in ancestors(t))
+                     for t, part in enclosing_tries(c))
+        ctx.check(per_cb, f'{cc.qualname}:a failing callback does not stop the others', c, 'try/except Exception around the single call, inside the loop',
+                  f'`{src(c)}` is not contained per callback: the first callback that raises ends the loop - the callbacks registered after it '
+                  '(re-initialisation of other modules sharing the connection) do not run after this reconnect', cc)
 
 
 @rule('C16.R7', min_instances=2)
@@ -361,13 +373,19 @@ def deadline_checked_every_cycle(ctx):
             cmp_nodes = {n.id for n in cfg.nodes if n.ast is not None and n.kind in ('test', 'stmt') and
                          any(isinstance(x, ast.Compare) and names_in(x) & ends for x in walk_local(n.ast))}
             body_first = [b for h in head for b, lab in cfg.succ[h] if lab == 'T']
-            r = set(body_first) | cfg.reach(body_first, avoid=cmp_nodes | set(head))
-            cyc = any(h in {b for x in r for b, lab in cfg.succ[x] if x not in cmp_nodes} for h in head)
+            # a cycle on which the caller gave no time-out (the flag guarding the deadline assignment tested false) has no deadline
+            flags = {x.id for n in body_walk(f.node) if isinstance(n, ast.Assign) and any(isinstance(t, ast.Name) and t.id in ends for t in n.targets)
+                     for a in ancestors(n) if isinstance(a, ast.If) for x in ast.walk(a.test) if isinstance(x, ast.Name)}
+
+            def no_deadline(a, tv):
+                return not tv and isinstance(a, ast.Name) and a.id in flags
+            start = [b for b in body_first if b not in cmp_nodes]
+            cyc = bool(set(start) & set(head)) or not paths_need_fact(cfg, start, head, no_deadline, avoid=cmp_nodes)
             if prog:
                 # only cycles that do not append must pass the comparison
                 app_nodes = {i for x in walk_local(l) if isinstance(x, ast.AugAssign) for i in cfg.node_of(x)}
-                r2 = set(body_first) | cfg.reach(body_first, avoid=cmp_nodes | set(head) | app_nodes)
-                cyc = any(h in {b for x in r2 for b, lab in cfg.succ[x] if x not in cmp_nodes and x not in app_nodes} for h in head)
+                start = [b for b in body_first if b not in cmp_nodes and b not in app_nodes]
+                cyc = bool(set(start) & set(head)) or not paths_need_fact(cfg, start, head, no_deadline, avoid=cmp_nodes | app_nodes)
             ctx.check(not cyc, f'{f.qualname}:deadline checked on every cycle', l,
                       'every cycle of the receive loop passes a comparison with the deadline' + (' or appends data' if prog else ''),
                       'a cycle of the receive loop (data received, but no end_of_line yet) never looks at the deadline: a device '
@@ -514,9 +532,16 @@ def calls_fail_or_return_a_reply(ctx):
                         if len(parts) > 1 and neg:
                             continue
                         n += 1
-                        ok = side_never_completes(cfg, t.id, label) and not (set(cfg.ids(f.node.body[-1])) & set()) 
                         heads = {x.id for x in cfg.nodes if x.kind == 'test' and isinstance(getattr(x.ast, 'cfg_owner', None), ast.While)}
-                        loops_on = bool(heads & cfg.reach([t.id], labels={label}, avoid=[t.id], exc=False))
+                        # on the side where the time is up every path raises - or leaves a test on the side where it found the
+                        # terminator in the buffer (the line is complete, the next cycle returns it)
+
+                        def complete(a, tv):
+                            return isinstance(a, ast.Compare) and len(a.ops) == 1 and 'end_of_line' in src(a.left) and \
+                                ((isinstance(a.ops[0], ast.In) and tv) or (isinstance(a.ops[0], ast.NotIn) and not tv))
+                        first = [b for b, lab in cfg.succ[t.id] if lab == label]
+                        ok = bool(first) and not (set(first) & (heads | {cfg.exit})) and paths_need_fact(cfg, first, heads | {cfg.exit}, complete)
+                        loops_on = False
                         ctx.check(ok and not loops_on, f'{f.qualname}:expired deadline raises', t.ast, f'`{src(t.ast)}`: the time-is-up side raises TimeoutError',
                                   f'`{src(t.ast)}`: on the side where the time is up the loop goes on (or returns) instead of raising: a silent device blocks the caller '
                                   '(and the communicator lock) beyond its time-out', f)
